@@ -115,6 +115,13 @@ fn faulty(r: &mut crate::gen::Rng, f: u64) -> Rec {
         8 => {
             // length field below the header size: unusable, parsing stops
             let len = r.below(6) as u8;
+            if r.chance(1, 4) {
+                // degenerate fill: an all-zero header (flags 0, length 0, vendor 0, attribute 0) with
+                // nothing but zero octets behind it - what padding, a cleared buffer or a short
+                // read looks like; it is an AVP with an unusable length like any other
+                let n = *r.pick(&[6usize, 7, 8, 12, 16, 30, 64]);
+                return Rec { bytes: vec![0u8; n], expect: Some(SErr::AvpLength(0)), value: None, stops: true, fault: f };
+            }
             let mut b = wire::raw_record(r.range(0, 39) as u16, false, 0, &r.bytes_range(0, 10), true);
             b[0] &= 0x3f;
             b[1] = len;
